@@ -19,9 +19,10 @@ CONVERTERS = [
     [mrec("GO", "http://purl/GO_", ["gomf"]), mrec("doi", "https://doi.org/")],
     [mrec("go", "http://x/go:"), mrec("GO", "http://y/GO/", ["G.O"])],
     [mrec("a.b", "http://ab/", ["a-b", "a_b"], ["http://ab2/"])],
+    [],   # a resolver over an empty converter knows no prefix: every request answers 422
 ]
 UNKNOWN = ["zz", "Go"]
-SEGMENTS = ["1", "ab", "10.1", "x_y", "a:b", "a:b:c"]
+SEGMENTS = ["1", "ab", "10.1", "x_y", "a:b", "a:b:c", ":5", "1::2", "5:"]   # the last three: leading / doubled / trailing delimiter
 DELIMS = [":", "/"]
 
 
@@ -54,13 +55,22 @@ def apps(ci, d):
         from starlette.testclient import TestClient
 
         conv = Converter([to_record(r) for r in CONVERTERS[ci]], delimiter=d)
-        _APPS[key] = (conv, get_flask_app(conv).test_client(), TestClient(get_fastapi_app(conv)))
+        # the same resolver mounted by hand from the blueprint / router entry points
+        import fastapi
+        import flask
+        from curies.resolver_service import get_fastapi_router, get_flask_blueprint
+
+        fapp = flask.Flask("mounted")
+        fapp.register_blueprint(get_flask_blueprint(conv))
+        sapp = fastapi.FastAPI()
+        sapp.include_router(get_fastapi_router(conv))
+        _APPS[key] = (conv, get_flask_app(conv).test_client(), TestClient(get_fastapi_app(conv)), fapp.test_client(), TestClient(sapp))
     return _APPS[key]
 
 
 def check(ci, d, prefix, identifier, ctx=None):
     fails = []
-    conv, flask_client, fast_client = apps(ci, d)
+    conv, flask_client, fast_client, flask_mounted, fast_mounted = apps(ci, d)
     model = Model(CONVERTERS[ci], d)
     path = "/" + prefix + d + identifier
     want_loc = model.expand_pair(prefix, identifier) if d != "/" else model.expand(prefix + d + identifier)
@@ -75,7 +85,15 @@ def check(ci, d, prefix, identifier, ctx=None):
         ctx.count("transitions", 2)
         ctx.count("evaluations", 2)
         ctx.outcome(want)
-    for name, got in (("flask", got1), ("fastapi", got2)):
+    extra = []
+    if identifier.count("/") == 0 or want[0] == 422:
+        r3 = flask_mounted.get(path)
+        r4 = fast_mounted.get(path, follow_redirects=False)
+        extra = [("flask-blueprint", (r3.status_code, r3.headers.get("Location"))), ("fastapi-router", (r4.status_code, r4.headers.get("location")))]
+        if ctx is not None:
+            ctx.count("transitions", 2)
+            ctx.count("requests_to_hand_mounted_apps", 2)
+    for name, got in [("flask", got1), ("fastapi", got2)] + extra:
         if got != want:
             if want[0] == 302 and got[0] != 302:
                 kind = f"known-prefix-not-redirected/{got[0]}"
@@ -110,7 +128,7 @@ def check_shared_process(d, ctx=None):
     from starlette.testclient import TestClient
 
     fails = []
-    convs = [Converter([to_record(r) for r in recs], delimiter=d) for recs in CONVERTERS]
+    convs = [Converter([to_record(r) for r in recs], delimiter=d) for recs in CONVERTERS[:3]]
     clients = [(get_flask_app(c).test_client(), TestClient(get_fastapi_app(c))) for c in convs]
     prefixes = ["GO", "go", "doi", "a.b", "gomf", "zz"]
     idents = ["1", "10.1/x", "a:b"]
@@ -173,8 +191,8 @@ def replay(case):
 def describe(tier):
     return {
         "level": "model_checking",
-        "rule": "3 converters (synonyms, case-variant prefixes, prefixes with '.', '-', '_') x delimiters ':' and '/' x Flask and FastAPI test "
-        f"clients x (every registered prefix and synonym + 2 unknown prefixes) x every identifier of 1..{3 if tier == 'quick' else 4} segments over "
+        "rule": "4 converters (one empty; synonyms, case-variant prefixes, prefixes with '.', '-', '_') x delimiters ':' and '/' x Flask and FastAPI test "
+        f"clients (get_*_app, and for single-segment identifiers and unknown prefixes also apps mounted by hand from get_flask_blueprint / get_fastapi_router) x (every registered prefix and synonym + 2 unknown prefixes) x every identifier of 1..{3 if tier == 'quick' else 4} segments over "
         f"{SEGMENTS} joined by '/'; expected status/Location from the reference model; plus, per delimiter, the "
         "three apps side by side in one process queried alternately, before and after their live converters gain prefixes; distinct_nontrivial = redirected requests whose "
         "identifier contains the delimiter",
@@ -185,4 +203,4 @@ def describe(tier):
 
 
 def required_counters(tier):
-    return ["validated", "shared_process_requests", "redirects", "redirects_identifier_with_slash", "redirects_identifier_with_delimiter", "unknown_prefix"]
+    return ["validated", "shared_process_requests", "requests_to_hand_mounted_apps", "redirects", "redirects_identifier_with_slash", "redirects_identifier_with_delimiter", "unknown_prefix"]
